@@ -13,6 +13,16 @@ export CARGO_TERM_COLOR=never
 ID=$1
 shift
 TIER=${1:-quick}
+# Watchdog limit per case (the framework's default is 60 s). One case here is up to
+# 60 (quick) or 250 (thorough) executions of up to 20,000 steps each; with all 16
+# shards busy such a case has been measured at more than 60 s, which is slowness,
+# not a hang (shuttle reports deadlocks itself). The watchdog stays as a net
+# against a hang of the harness.
+if [ "$TIER" = thorough ]; then
+    QSH_STALL=${VERIF_STALL_SECS:-600}
+else
+    QSH_STALL=${VERIF_STALL_SECS:-240}
+fi
 
 # a replay file produced by the stress run goes back to vcheck
 if [ "${2:-}" = "--replay" ] && grep -q '"check": ".*os-thread' "${3:-/dev/null}" 2>/dev/null; then
@@ -41,7 +51,7 @@ if [ "${2:-}" != "--replay" ] && { [ "$ID" = C28 ] || [ "$ID" = C32 ]; }; then
 fi
 
 # shuttle prints several lines per failing execution while a failure is shrunk; keep stderr readable
-"$VERIF/.target-qsh/debug/qsh" "$ID" "$@" 2> >(grep --line-buffered -v -E '^(failing seed:|"|[0-9]+$|To replay the failure|    [12]\) |Task failed, serializing|test panicked in task)' >&2)
+VERIF_STALL_SECS=$QSH_STALL "$VERIF/.target-qsh/debug/qsh" "$ID" "$@" 2> >(grep --line-buffered -v -E '^(failing seed:|"|[0-9]+$|To replay the failure|    [12]\) |Task failed, serializing|test panicked in task)' >&2)
 rc=$?
 sleep 0.1
 [ $rc -eq 0 ] && rc=$src
